@@ -235,6 +235,7 @@ func (fr *Frame) lookup(st *State, in *ssa.Lookup) Val {
 	has := ex.mapHas(st, in.X.Type(), x.T, k.T)
 	raw := ex.mapGetRaw(st, in.X.Type(), x.T, k.T)
 	v := Ite(has, raw, ex.ctx.Zero(mt.Elem()))
+	v = ex.ghostTyped(v, mt.Elem())
 	fr.loadFacts(st, v, mt.Elem())
 	if in.CommaOk {
 		return Val{Tup: []Val{{T: v}, {T: has}}}
